@@ -347,7 +347,13 @@ fn history(rng: &mut Rng, rec: &mut Recorder, len: usize, size: usize, label: &s
                         let cands: Vec<usize> = (0..$list.len())
                             .filter(|i| placed.iter().any(|k| k.0 == $kind && k.1 == $list[*i].get_name()))
                             .collect();
-                        if let Some(i) = cands.first().copied() {
+                        // only while the last element of the list is a new one: it is the one that
+                        // swap_remove_idx moves. (Moving an element that was placed earlier would change
+                        // the list order among elements placed by the same sort_new_items() call, which
+                        // share a uid and are written in list order - an edit of the list order, outside
+                        // the operations the property quantifies over.)
+                        let last_is_new = $list.len() > 0 && fresh.iter().any(|k| k.0 == $kind && k.1 == $list[$list.len() - 1].get_name());
+                        if let Some(i) = cands.first().copied().filter(|_| last_is_new) {
                             let name = $list[i].get_name().to_string();
                             $list.swap_remove_idx(i);
                             Some(($kind.to_string(), name))
